@@ -330,6 +330,7 @@ Lemma rebuild_root e s3 nm t ms :
   unclaimed (s_hn s3) nm ->
   Forall (MOk nm s3) ms ->
   ksorted (s_hn s3) ->
+  listed_by (s_hn s3) nm = [] ->
   exists s', rebuild_cache e s3 nm = (s', false) /\
     ksorted (s_hn s') /\
     aget nm (s_hn s') = Some (mkInfo t ms None (hchildren ms) false) /\
@@ -342,7 +343,8 @@ Lemma rebuild_root e s3 nm t ms :
         In (MNode n) ms \/ exists c, In (MHyper c) ms /\ In n (real_get s3 c)) /\
     s_tier s' = s_tier s3 /\ s_ready s' = s_ready s3 /\ s_failed s' = s_failed s3 /\ s_fuel s' = s_fuel s3.
 Proof.
-  intros Hnm Hu Hms Hso. unfold rebuild_cache.
+  intros Hnm Hu Hms Hso Hlist. unfold rebuild_cache, doubly_listed. rewrite Hlist. cbn [length Nat.ltb Nat.leb].
+  rewrite andb_false_r. unfold rebuild_cache_prefix.
   rewrite (get_ancestors_root _ _ _ Hnm eq_refl Hu).
   cbn [fold_left length].
   set (s0 := clear_derived s3 nm).
@@ -397,6 +399,12 @@ Proof.
   repeat split; congruence.
 Qed.
 
+Lemma filter_all_false {A} (f : A -> bool) l : (forall x, In x l -> f x = false) -> filter f l = [].
+Proof.
+  induction l as [|x r IH]; intros H; simpl; [reflexivity|].
+  rewrite (H x) by now left. apply IH. intros y Hy. apply H. now right.
+Qed.
+
 (* ---------- UpdateHyperNode for an object that arrives after all its members ---------- *)
 Lemma upd_fresh e s nm t ms :
   aget nm (s_hn s) = None ->
@@ -439,7 +447,13 @@ Proof.
   { eapply Forall_impl; [|exact Hms]. intros m Hm. destruct m as [n| |c]; simpl in *; auto.
     destruct Hm as [Hc [ic [H1 H2]]]. split; [exact Hc|]. exists ic. rewrite H3hn by exact Hc. auto. }
   assert (H3so : ksorted (s_hn s3)) by (unfold s3, set_hn; simpl; now apply aset_sorted).
-  destruct (rebuild_root e s3 nm t ms H3nm H3u H3ms H3so)
+  assert (H3l : listed_by (s_hn s3) nm = []).
+  { unfold listed_by. rewrite filter_all_false; [reflexivity|].
+    intros ki Hin. apply In_aset in Hin. destruct Hin as [->|Hin].
+    - cbn [fst]. now rewrite Pos.eqb_refl.
+    - pose proof (Hunc ki Hin) as Hc. unfold claims in Hc. rewrite Hc. apply andb_false_r. }
+  change (rebuild_cache_gen 5 e s3 nm) with (rebuild_cache e s3 nm).
+  destruct (rebuild_root e s3 nm t ms H3nm H3u H3ms H3so H3l)
     as [s4 [Hrb [R0 [R1 [R2 [R3 [R4 [R5 [R6 [R7 R8]]]]]]]]]].
   rewrite Hrb. cbv beta iota.
   assert (Hf4 : s_failed s4 = []) by (rewrite R7; exact Hfailed).
@@ -679,7 +693,7 @@ Proof.
   - unfold scratch, run in *. rewrite map_app, fold_left_app.
     destruct (run_adds e P init_st) as [s Hs]. rewrite Hs in *. cbn [snd] in IH.
     destruct (Rep_step e s P o IH Ha) as [s' [Hu Hr]].
-    cbn [map fold_left]. unfold step, step_gen. change (upd_gen 4 e s o) with (upd e s o).
+    cbn [map fold_left]. unfold step, step_gen. change (upd_gen 5 e s o) with (upd e s o).
     rewrite Hu. exact Hr.
 Qed.
 
